@@ -25,6 +25,8 @@ class Frame(Generic[BeamT]):
 
     def __init__(self) -> None:
         self.beams: List[Dict[int, Optional[BeamT]]] = [{} for _ in range(8)]
+        # the order of corners in which each beam was added last (its direction)
+        self.directions: Dict[frozenset, Tuple[int, int]] = {}
 
         # create wires and connections for quicker addressing
         for axis in (0, 1, 2):
@@ -41,6 +43,7 @@ class Frame(Generic[BeamT]):
 
         self.beams[corner_1][corner_2] = beam
         self.beams[corner_2][corner_1] = beam
+        self.directions[frozenset((corner_1, corner_2))] = (corner_1, corner_2)
 
     def get_axis_beams(self, axis: AxisType) -> List[BeamT]:
         """Returns all non-None beams from given axis"""
@@ -55,7 +58,8 @@ class Frame(Generic[BeamT]):
         return beams
 
     def get_all_beams(self) -> List[Tuple[int, int, BeamT]]:
-        """Returns all non-None entries in self.beams"""
+        """Returns all non-None entries in self.beams, each with its corners in the
+        order they were given to add_beam() (edge data can depend on direction)"""
         beams = []
         listed = []
 
@@ -66,7 +70,7 @@ class Frame(Generic[BeamT]):
                     continue
 
                 if beam is not None:
-                    beams.append((corner_1, corner_2, beam))
+                    beams.append((*self.directions[frozenset(pair)], beam))
                     listed.append(pair)
 
         return beams
